@@ -142,6 +142,45 @@ func (a *EpochBitmapAllocator) Allocate(ctx context.Context, subscriberID string
 	return nil, ErrPoolExhausted
 }
 
+// SetAllocation records that subscriberID holds ip, at the current epoch.
+// Unlike Allocate it does not choose the address: it is used to replay
+// allocations from the distributed store and to apply changes announced by
+// other nodes, where the address is already decided.
+func (a *EpochBitmapAllocator) SetAllocation(subscriberID string, ip net.IP) error {
+	a.mu.Lock()
+	defer a.mu.Unlock()
+
+	idx, err := a.ipToIndex(ip)
+	if err != nil {
+		return err
+	}
+	if idx == 0 || idx == a.totalIPs-1 {
+		return fmt.Errorf("IP %s is not allocatable (network/broadcast)", ip)
+	}
+
+	// Refuse an address that another subscriber holds on a live lease.
+	if owner, ok := a.ipToSubscriber[idx]; ok && owner != subscriberID {
+		if !a.isGenerationFree(a.getGeneration(idx), a.freeThreshold()) {
+			return fmt.Errorf("IP %s already allocated to %s", ip, owner)
+		}
+		delete(a.subscribers, owner) // expired mapping not yet cleaned up
+	}
+
+	// Give back a different address the subscriber held before.
+	if oldIdx, ok := a.subscribers[subscriberID]; ok && oldIdx != idx {
+		a.setGeneration(oldIdx, (a.currentGeneration()+2)%4)
+		delete(a.ipToSubscriber, oldIdx)
+		if oldIdx < a.nextFreeHint {
+			a.nextFreeHint = oldIdx
+		}
+	}
+
+	a.setGeneration(idx, a.currentGeneration())
+	a.subscribers[subscriberID] = idx
+	a.ipToSubscriber[idx] = subscriberID
+	return nil
+}
+
 // Renew updates the generation for an existing allocation.
 // This extends the lease without changing the IP.
 func (a *EpochBitmapAllocator) Renew(ctx context.Context, subscriberID string) error {
